@@ -37,6 +37,9 @@ def run(ctx):
     cuts = list(range(0, 70)) + ["fsync", "rename", "unlink", "symlink", "open_rbp", "open_ab"]
     traces += jc.pool_map(jc._cut_chunk, [(ctx.seed, cuts[i::8]) for i in range(8)])
     v = jc.judge(ctx, traces, "crash + takeover + survivors", allow_k4=True)
+    from . import rdb_sched
+
+    rdb_sched.run_crash_part(ctx)
     for t in traces[:: max(1, len(traces) // 3)][:3]:
         ctx.sample({"lock": t["lock"], "events": t["ev"][:25]})
     if not ctx.violations:
@@ -49,5 +52,9 @@ def run(ctx):
 
 
 def replay(ctx, data):
+    if data.get("replay", {}).get("family") == "rdb-crash":
+        from . import rdb_sched
+
+        return rdb_sched.replay(ctx, data)
     traces = jc.rerun(data)
     jc.judge(ctx, traces, "replay", allow_k4=True)
